@@ -5,6 +5,17 @@ import numpy as np
 # decoding of program text into live Python objects
 
 
+# Arrays handed to the library as arguments of the current call (index arrays, masks, column vectors, row values),
+# with a snapshot taken before the call: the executor checks afterwards that the call did not modify them.
+TRACK = None
+
+
+def _tracked(arr):
+    if TRACK is not None:
+        TRACK.append((arr, arr.copy()))
+    return arr
+
+
 def dec_index(ix, env):
     t = ix[0]
     if t == "int":
@@ -20,9 +31,9 @@ def dec_index(ix, env):
     if t == "list":
         return [int(i) for i in ix[1]]
     if t == "arr":
-        return np.array(ix[1], dtype=ix[2] if len(ix) > 2 else np.int64)
+        return _tracked(np.array(ix[1], dtype=ix[2] if len(ix) > 2 else np.int64))
     if t == "mask":
-        return np.array(ix[1], dtype=bool)
+        return _tracked(np.array(ix[1], dtype=bool))
     if t == "blist":
         return [bool(b) for b in ix[1]]
     if t == "ell":
@@ -65,9 +76,9 @@ def dec_operand(op, env):
     if t == "sc":
         return np.dtype(op[1]).type(dec_number(op[2]))
     if t == "col":
-        return np.array([dec_number(x) for x in op[2]], dtype=op[1]).reshape(-1, 1)
+        return _tracked(np.array([dec_number(x) for x in op[2]], dtype=op[1]).reshape(-1, 1))
     if t == "row":
-        return np.array([dec_number(x) for x in op[2]], dtype=op[1])
+        return _tracked(np.array([dec_number(x) for x in op[2]], dtype=op[1]))
     if t == "list":
         return [dec_number(x) for x in op[1]]
     raise ValueError(f"bad operand encoding {op!r}")
